@@ -28,6 +28,15 @@ Theorem C18_bypass_relinks : forall ms rq j ms' rq', bypass ms rq j = Some (ms',
 Proof. exact bypass_rq. Qed.
 Print Assumptions C18_bypass_relinks.
 
+(* the loops run over sets whose internal order cannot be observed: any other order of the
+   upstreams and downstreams gives the same requirement sets *)
+Theorem C18_bypass_any_order : forall ms rq j ms' rq' ups downs,
+  bypass ms rq j = Some (ms', rq') ->
+  (forall x, In x ups <-> In x (rq j)) -> (forall x, In x downs <-> In x (downs_of ms rq j)) ->
+  forall d r, In r (unlink j downs (relink ups downs rq) d) <-> In r (rq' d).
+Proof. exact bypass_order_independent. Qed.
+Print Assumptions C18_bypass_any_order.
+
 (* no other ordering appears (needs no hypothesis at all) *)
 Theorem C18_bypass_no_new_order : forall ms rq j ms' rq', bypass ms rq j = Some (ms', rq') ->
   forall x y, reach rq' ms' x y -> reach rq ms x y.
